@@ -2410,9 +2410,9 @@ skip_whitespace(ESL_SQFILE *sqfp)
       return eslEOF;
 
   c = (int) ascii->buf[ascii->bpos];
-  x  = sqfp->inmap[c];
+  x  = (isascii(c) ? sqfp->inmap[c] : eslDSQ_ILLEGAL);   /* <c> is a (signed) char: never index inmap[] with a byte >= 0x80 */
 
-  while ( isspace(c) ) {
+  while ( isascii(c) && isspace(c) ) {
 
     ascii->bpos++;
 
@@ -2422,7 +2422,7 @@ skip_whitespace(ESL_SQFILE *sqfp)
         return eslEOF;
 
     c = (int) ascii->buf[ascii->bpos];
-    x  = sqfp->inmap[c];
+    x  = (isascii(c) ? sqfp->inmap[c] : eslDSQ_ILLEGAL);
   }
   if (x == eslDSQ_EOD)
     return eslEOD;
